@@ -81,4 +81,19 @@ func init() {
 	})
 
 	register("TABt", "temporary", nil, ruleTableEscape, ruleTableNanInf, ruleTableKeys, ruleTableNoRewrite, ruleTableGob, ruleTablePartition)
+
+	register("WALKt", "temporary", nil, func(p *Prog, r *Report) {
+		ruleWalkProgress(p, r, []string{"mxj.valuesForKeyPath", "mxj.updateValuesForKeyPath", "x2jw.valuesFromKeyPath"})
+		ruleWalkHandover(p, r)
+		ruleWalkTotal(p, r, []walkerSpec{{"mxj.hasKey", nil}, {"mxj.hasKeyPath", nil}, {"mxj.getLeafNodes", []string{"param:noattr", "load(mxj.attrPrefix)"}},
+			{"mxj.writeMap", nil}, {"x2jw.hasKey", nil}, {"x2jw.hasKeyPath", nil}})
+		ruleWalkLeaf(p, r)
+		rulePairCount(p, r, []string{"mxj.Map.ValuesForKey", "mxj.Map.oldValuesForPath"})
+		rulePairUpdate(p, r)
+		rulePairAtomic(p, r)
+		ruleWalkParent(p, r)
+		ruleWalkCollect(p, r, []string{"mxj.hasKey", "mxj.valuesForKeyPath", "x2jw.hasKey", "x2jw.valuesFromKeyPath"})
+		ruleShortestMetric(p, r, []string{"mxj.Map.PathForKeyShortest", "x2jw.PathForKeyShortest"})
+		ruleAliasReuse(p, r, p.PkgFuncs("mxj"))
+	})
 }
